@@ -13,6 +13,7 @@ import (
 	"github.com/alibaba/sentinel-golang/core/base"
 	"github.com/alibaba/sentinel-golang/core/flow"
 	"github.com/alibaba/sentinel-golang/core/stat"
+	"github.com/alibaba/sentinel-golang/util/verifhook"
 	"verifharness/internal/sched"
 	"verifharness/internal/vh"
 )
@@ -68,26 +69,38 @@ func sum(ds []time.Duration) (s time.Duration) {
 func (it *Interp) Step(t []string, op string) string {
 	switch t[0] {
 	case "load":
-		if it.loaded {
-			panic("second load in one case")
+		// load (<f:threshold> <statIntervalMs> <maxQueueingTimeMs>)* [other=<n>]: the complete rule list of the resource, in
+		// check order; `other=<n>` adds a rule (threshold n) for another resource, so that a list that is otherwise
+		// identical to the current one is still a real reload for flow.LoadRules
+		args := t[1:]
+		var rules []*flow.Rule
+		if n := len(args); n > 0 && strings.HasPrefix(args[n-1], "other=") {
+			rules = append(rules, &flow.Rule{Resource: it.res + "-other", TokenCalculateStrategy: flow.Direct,
+				ControlBehavior: flow.Reject, Threshold: float64(vh.U(args[n-1][6:]))})
+			args = args[:n-1]
 		}
-		th, ok := vh.ParseFBits(t[1])
-		if !ok {
-			panic("bad threshold " + t[1])
+		if len(args)%3 != 0 {
+			panic("bad load")
 		}
-		r := &flow.Rule{
-			Resource:               it.res,
-			TokenCalculateStrategy: flow.Direct,
-			ControlBehavior:        flow.Throttling,
-			Threshold:              th,
-			StatIntervalInMs:       uint32(vh.U(t[2])),
-			MaxQueueingTimeMs:      uint32(vh.U(t[3])),
+		for i := 0; i < len(args); i += 3 {
+			th, ok := vh.ParseFBits(args[i])
+			if !ok {
+				panic("bad threshold " + args[i])
+			}
+			rules = append(rules, &flow.Rule{
+				Resource:               it.res,
+				TokenCalculateStrategy: flow.Direct,
+				ControlBehavior:        flow.Throttling,
+				Threshold:              th,
+				StatIntervalInMs:       uint32(vh.U(args[i+1])),
+				MaxQueueingTimeMs:      uint32(vh.U(args[i+2])),
+			})
 		}
-		if _, err := flow.LoadRules([]*flow.Rule{r}); err != nil {
+		if _, err := flow.LoadRules(rules); err != nil {
 			panic(err)
 		}
-		if len(flow.GetRulesOfResource(it.res)) != 1 {
-			panic("rule not in force")
+		if len(flow.GetRulesOfResource(it.res)) != len(args)/3 {
+			panic("rules not in force")
 		}
 		it.loaded = true
 		return ""
@@ -95,12 +108,28 @@ func (it *Interp) Step(t []string, op string) string {
 		it.clk.Ns = vh.U(t[1])
 		return ""
 	case "req":
-		n0 := len(it.clk.Sleeps)
-		r := it.entry(uint32(vh.U(t[1])))
-		if w := sum(it.clk.Sleeps[n0:]); r == "pass" && len(it.clk.Sleeps) > n0 {
-			return fmt.Sprintf("wait %d", int64(w))
+		// observable walk over the rules: L = a checker reached its shared timestamp (th.load hook), S<ns> = a sleep
+		// the slot asked for, then the verdict
+		var evs []string
+		seen := len(it.clk.Sleeps)
+		flush := func() {
+			for ; seen < len(it.clk.Sleeps); seen++ {
+				evs = append(evs, fmt.Sprintf("S%d", int64(it.clk.Sleeps[seen])))
+			}
 		}
-		return r
+		prev := verifhook.Sched
+		verifhook.Sched = func(p string) {
+			if p == "th.load" {
+				flush()
+				evs = append(evs, "L")
+			}
+		}
+		r := func() string {
+			defer func() { verifhook.Sched = prev }()
+			return it.entry(uint32(vh.U(t[1])))
+		}()
+		flush()
+		return strings.Join(append(evs, r), " ")
 	case "thread":
 		if int(vh.U(t[1])) != len(it.decls) || t[3] != "req" {
 			panic("bad thread declaration")
